@@ -244,6 +244,23 @@ def run(repo='/repo', tier='quick'):
                 res.violated('C06.d', fname + ':marker-only-with-body', 'the end-of-body marker is sent on a path that did not establish that the message has a body', end[3]['loc'])
         res.check(not bad, 'C06.d', fname + ':marker-before-complete', 'on all %d paths to %s either the message has no body or %s(tx, NULL, 0) came first' % (n, hook, proc),
                   '%s can run for a message with a body before the end-of-body marker was delivered' % hook, f.loc)
+    # the hook runners pass the end-of-body marker on: a path that returns without running the hooks has tested data != NULL
+    for runner, hook in (('htp_req_run_hook_body_data', 'hook_request_body_data'), ('htp_res_run_hook_body_data', 'hook_response_body_data')):
+        rf = db.get(runner)
+        dpar = [p_['name'] for p_ in rf.params if 'htp_tx_data_t' in p_['t']]
+        dn = dpar[0] if dpar else 'd'
+        npth, bad = 0, None
+        for atoms, events, end, seq in P.enum_paths_seq(rf, (rf.entry, -1)):
+            ran = any(x[0] == 'stmt' and any(h.startswith('hook_') for h, c in P.hook_runs(x[3])) for x in seq)
+            if ran:
+                continue
+            npth += 1
+            facts = [a for a, bb in atoms]
+            notx = any(a[0] in ('connp->in_tx', 'connp->out_tx') and a[1] == '==' and a[2] == '0' for a in facts)      # nothing to deliver to
+            if ('%s->data' % dn, '!=', '0') not in facts and not notx:
+                bad = facts
+        res.check(bad is None, 'C06.d', runner + ':marker-passes-the-empty-chunk-filter', 'every return in front of the hooks is taken only for data != NULL (%d such path(s))' % npth,
+                  '%s can return without running the body hooks for a record with data == NULL (guards %s): the end-of-body marker is swallowed and the completion callback arrives without it' % (runner, bad), rf.loc)
     c06f(db, res)
     res.assumptions.append('"concatenation equals the entity body" and chunk-size parsing are values and are not decided')
     return res
